@@ -160,6 +160,13 @@ def cases_c01(tier, seed):
         cases.append(("g1e seed=%d" % (seed * 1000 + 700 + i), gen.g1(seed * 1000 + 700 + i, engine=True)))
         cases.append(("g4e seed=%d" % (seed * 1000 + 700 + i), gen.g4(seed * 1000 + 700 + i, engine=True)))
     cases.append(("gmis", gen.gmis(seed)))
+    # the model-side search's random chains, on the library too (ties the engine model to the library on that distribution)
+    for i in range(16 * n):
+        P = 1024 if i % 4 else 4096
+        sd = seed * 5000 + i
+        rc, out = vlib.sh([vlib.MONITOR, "msearch", "random", str(P), str(sd), "1", "12", "8", "emit"], timeout=300)
+        if rc == 0 and out.startswith("begin"):
+            cases.append(("mrandom P=%d seed=%d" % (P, sd), out))
     # shape enumeration (G3)
     cases += gen.g3_edge(16, 200)
     deep = gen.g3_deep(20, 300)
@@ -186,6 +193,8 @@ def opts_c01(label):
     h = int(hashlib.sha1(label.encode()).hexdigest(), 16)
     if label.startswith("g3") or label.startswith("g1long"):
         return dict(pagesize=1024, num_pages=32)
+    if label.startswith("mrandom"):
+        return dict(pagesize=int(label.split()[1].split("=")[1]), num_pages=32)
     return dict(pagesize=[1024, 4096][h % 2], num_pages=[4, 32][(h // 2) % 2])
 
 
@@ -271,7 +280,15 @@ def msearch_jobs(tier):
     ranges(1024, 40, 40, "4,15,22")
     ranges(4096, 24, 900, "3,6,11,17")
     subsets(1024, 12, 200, "2,5,9", 12)
+    def rnd(P, seed0, nseeds, ntx, nops, shards):
+        for i in range(shards):
+            jobs.append(["random", str(P), str(seed0 + i * nseeds), str(nseeds), str(ntx), str(nops)])
+    rnd(1024, 1, 150, 12, 8, 8)
+    rnd(4096, 100001, 100, 12, 10, 4)
     if tier == "thorough":
+        rnd(1024, 200001, 2500, 16, 10, 16)
+        rnd(4096, 300001, 1500, 16, 12, 8)
+        rnd(1024, 400001, 400, 60, 6, 8)
         ranges(1024, 60, 120, "1,7,20,33,50")
         ranges(1024, 48, 300, "0,5,24,47")
         ranges(4096, 40, 1300, "2,9,30")
@@ -286,6 +303,9 @@ def msearch_jobs(tier):
 def msearch_history(descr):
     """rebuild the history of a HIT line printed by `monitor msearch`"""
     kv = dict(x.split("=", 1) for x in descr.split()[1:])
+    if descr.startswith("random"):
+        rc, out = vlib.sh([vlib.MONITOR, "msearch", "random", kv["P"], kv["seed"], "1", kv["ntx"], kv["nops"], "emit"], timeout=600)
+        return out
     n, kl = int(kv["n"]), int(kv["kl"])
     subs = set() if kv["subs"] == "-" else set(int(x) for x in kv["subs"].split(","))
     touch = None if kv["touch"] == "None" else int(kv["touch"])
@@ -318,7 +338,7 @@ def model_search(prop):
                         hits.append((int(j[1]), ln[4:]))
         rep.cov["model_search_cases"] = total
         rep.cov["model_search_hits"] = len(hits)
-        rep.cov["model_search_families"] = [" ".join(j[:5]) for j in jobs if j[0] == "ranges" or j[5] == "0"]
+        rep.cov["model_search_families"] = sorted(set(" ".join(j[:5]) if j[0] != "random" else "random P=%s chains of %s tx x <=%s ops" % (j[1], j[4], j[5]) for j in jobs))
         for P, hit in hits[:3]:
             descr, why = hit.split(" :: ", 1)
             text = msearch_history(descr)
